@@ -746,6 +746,10 @@ func (rt *runtime) toValue(value interface{}) Value {
 		case reflect.Array:
 			return objectValue(rt.newGoArray(val))
 		case reflect.Func:
+			if val.IsNil() {
+				// nothing to call: like a nil pointer, a nil func is not a function object
+				return Value{}
+			}
 			var name, file string
 			var line int
 			if v := reflect.ValueOf(val); v.Kind() == reflect.Ptr {
